@@ -439,6 +439,7 @@ def correspond(ctx):
     from .C09 import to_lattice
     rng = ctx.rng
     cases, meta = [], []
+    gcases, gmeta = [], []
     # (1) one corner: u1 rational unit, (c, s) rational with s > 0 (convex c > 0 and reflex c < 0 corners)
     for _ in range(ctx.n(60, 400)):
         cu, su, _ = G.pythagorean_angle(rng)
@@ -504,6 +505,16 @@ def correspond(ctx):
         cases.append('boxes_close (layout_boxes (rects_ratio %s %s %s %s %s %s %s)) %s' % (
             q(base), q(height), q(ratio), q(srh), q(sill), q(hsep), q(vsep), core.coq_list(boxes)))
         meta.append(('Face3D.sub_rects_from_rect_ratio', (base, height, ratio, srh, sill, hsep, vsep), fcls))
+        # the GENERATED routine (translated from the source, run in the XY plane with the executable sqrt) against the hand model;
+        # exact rationals grow quickly in the subdivision loop, so only layouts with at most 3 columns, six per run (24 in the thorough tier)
+        gen_done = len(gmeta)
+        if base / hsep > 3.4 or gen_done >= ctx.n(6, 24):
+            continue
+        gcases.append('boxes_close (layout_boxes (rects_ratio %s %s %s %s %s %s %s)) '
+                     '(map face_box (Face3D_sub_rects_from_rect_ratio 400 qsqrt_exec xy_plane %s %s %s %s %s %s %s))' % (
+                         q(base), q(height), q(ratio), q(srh), q(sill), q(hsep), q(vsep),
+                         q(base), q(height), q(ratio), q(srh), q(sill), q(hsep), q(vsep)))
+        gmeta.append(('generated Face3D_sub_rects_from_rect_ratio vs SubOffset.rects_ratio', (base, height, ratio, srh, sill, hsep, vsep), 'xy'))
     pre = ('Definition eps : Q := 1 # 100000000.\n'
            'Definition closeq (a b : Q) : bool := Qle_bool (Qabs (a - b)) eps.\n'
            'Definition close2 (a b : V2) : bool := closeq (v2x a) (v2x b) && closeq (v2y a) (v2y b).\n'
@@ -515,9 +526,14 @@ def correspond(ctx):
            '     (cx - lw l / 2, cx + lw l / 2, yb, yb + lh l)) (seq 0 (Z.to_nat (cols l)))) (seq 0 (Z.to_nat (rows l))).\n'
            'Definition box_close (a b : Q * Q * Q * Q) : bool := let \'(a1, a2, a3, a4) := a in let \'(b1, b2, b3, b4) := b in '
            'closeq a1 b1 && closeq a2 b2 && closeq a3 b3 && closeq a4 b4.\n'
+           'Definition xy_plane : PlaneR := mkPlane (mkV3 0 0 1) (mkV3 0 0 0) 0 (mkV3 1 0 0) (mkV3 0 1 0).\n'
+           'Definition face_box (f : Face3R) : Q * Q * Q * Q := let xs := map v3x (f3_boundary f) in let ys := map v3y (f3_boundary f) in '
+           '(py_min_list xs, py_max_list xs, py_min_list ys, py_max_list ys).\n'
            'Definition boxes_close (a b : list (Q * Q * Q * Q)) : bool := Nat.eqb (length a) (length b) && forallb (fun p => box_close (fst p) (snd p)) (combine a b).\n')
-    res = core.run_cases('C19_corr', ['Base', 'QGeom', 'SubOffset'], pre, cases)
-    ctx.corr_cases += len(cases)
+    res = core.run_cases('C19_corr', ['Base', 'QGeom', 'G0_vec', 'G1_shapes', 'G11_sub', 'SubOffset'], pre, cases)
+    res += core.run_cases('C19_corr_gen', ['Base', 'QGeom', 'G0_vec', 'G1_shapes', 'G11_sub', 'SubOffset'], pre, gcases, chunk=1)
+    meta += gmeta
+    ctx.corr_cases += len(cases) + len(gcases)
     for ok, m in zip(res, meta):
         if ok is not True:
             ctx.corr_fail.append({'function': m[0], 'input': repr(m[1:]),
